@@ -84,42 +84,54 @@ theorem rTabixHeader_spec {bs : Bytes} {h : Header} {names : List Name} {rest : 
                 · cases hr
                 · rename_i hn0
                   split at hr
-                  · cases hr
-                  · rename_i nb r8 h8
-                    split at hr
+                  · -- an empty name block: no names
+                    simp only [Except.ok.injEq, Prod.mk.injEq] at hr
+                    obtain ⟨⟨rfl, rfl⟩, _⟩ := hr
+                    exact
+                      { format := by simp only; omega
+                        nameCol := rI32_spec h2
+                        begCol := rI32_spec h3
+                        endCol := rI32_spec h4
+                        metaChar := rI32_spec h5
+                        skip := rI32_spec h6
+                        namesLen := by simp [nameBlock]
+                        noNul := by intro nm hnm; cases hnm }
+                  · split at hr
                     · cases hr
-                    · rename_i l hl
+                    · rename_i nb r8 h8
                       split at hr
                       · cases hr
-                      · rename_i hl0
-                        simp only [Except.ok.injEq, Prod.mk.injEq] at hr
-                        obtain ⟨⟨rfl, rfl⟩, _⟩ := hr
-                        have hnb := rBytes_spec h8
-                        have hn := (rI32_spec h7).2
-                        have hlast : nb = nb.dropLast ++ [0] := by
-                          have hne : nb ≠ [] := by intro he; rw [he] at hl; cases hl
-                          have := List.dropLast_concat_getLast hne
-                          have hl' : nb.getLast hne = l := by
-                            have := List.getLast?_eq_some_getLast hne
-                            rw [this] at hl; simpa using hl
-                          have hl0' : l = 0 := by simpa using hl0
-                          rw [hl', hl0'] at this
-                          exact this.symm
-                        refine
-                          { format := by simp only; omega
-                            nameCol := rI32_spec h2
-                            begCol := rI32_spec h3
-                            endCol := rI32_spec h4
-                            metaChar := rI32_spec h5
-                            skip := rI32_spec h6
-                            namesLen := ?_
-                            nonempty := splitNul_ne_nil _
-                            noNul := fun nm hnm => splitNul_noNul _ nm hnm }
-                        rw [nameBlock_splitNul, ← hlast, hnb]
-                        omega
+                      · rename_i l hl
+                        split at hr
+                        · cases hr
+                        · rename_i hl0
+                          simp only [Except.ok.injEq, Prod.mk.injEq] at hr
+                          obtain ⟨⟨rfl, rfl⟩, _⟩ := hr
+                          have hnb := rBytes_spec h8
+                          have hn := (rI32_spec h7).2
+                          have hlast : nb = nb.dropLast ++ [0] := by
+                            have hne : nb ≠ [] := by intro he; rw [he] at hl; cases hl
+                            have := List.dropLast_concat_getLast hne
+                            have hl' : nb.getLast hne = l := by
+                              have := List.getLast?_eq_some_getLast hne
+                              rw [this] at hl; simpa using hl
+                            have hl0' : l = 0 := by simpa using hl0
+                            rw [hl', hl0'] at this
+                            exact this.symm
+                          refine
+                            { format := by simp only; omega
+                              nameCol := rI32_spec h2
+                              begCol := rI32_spec h3
+                              endCol := rI32_spec h4
+                              metaChar := rI32_spec h5
+                              skip := rI32_spec h6
+                              namesLen := ?_
+                              noNul := fun nm hnm => splitNul_noNul _ nm hnm }
+                          rw [nameBlock_splitNul, ← hlast, hnb]
+                          omega
 
 /-- `tabix.ReadFrom`: whatever bytes it accepts, the index it returns is well-formed -/
-theorem readTabix_wf {bs : Bytes} {t : TIndex} (h : readTabix bs = .ok (some t)) : TWF t := by
+theorem readTabix_wf {bs : Bytes} {t : TIndex} (h : readTabix bs = .ok t) : TWF t := by
   unfold readTabix at h
   split at h
   · cases h
@@ -130,21 +142,19 @@ theorem readTabix_wf {bs : Bytes} {t : TIndex} (h : readTabix bs = .ok (some t))
       · rename_i n r2 h2
         split at h
         · cases h
-        · split at h
+        · rename_i hd names r3 h3
+          split at h
           · cases h
-          · rename_i hd names r3 h3
+          · rename_i hcount
             split at h
             · cases h
-            · rename_i hcount
-              split at h
-              · cases h
-              · rename_i i0 h4
-                simp only [Except.ok.injEq, Option.some.injEq] at h
-                subst h
-                obtain ⟨hwf, hl⟩ := rIndex_wf (rI32_spec h2).2 h4
-                refine { idx := hwf, hdr := rTabixHeader_spec h3, count := ?_ }
-                simp only
-                have : (names.length : Int) = n := by simpa using hcount
-                omega
+            · rename_i i0 h4
+              simp only [Except.ok.injEq] at h
+              subst h
+              obtain ⟨hwf, hl⟩ := rIndex_wf (rI32_spec h2).2 h4
+              refine { idx := hwf, hdr := rTabixHeader_spec h3, count := ?_ }
+              simp only
+              have : (names.length : Int) = n := by simpa using hcount
+              omega
 
 end Hts.Model.IndexIO
